@@ -319,6 +319,9 @@ class Canon:
         (each the latest such event on some path to the read).  When several stores of the object carry the same label they
         are numbered in program order (`[1]'2`).  Reads of objects never written element-wise here carry no suffix."""
         rs = e.c.get('reach') if isinstance(e.c, dict) else None
+        return self.version_of(rs, e)
+
+    def version_of(self, rs, e=None):
         if not rs:
             return ''
         fn, P = self.fn, self.P
@@ -336,7 +339,7 @@ class Canon:
                     self._vlabels[(b_, i_)] = lab_ if len(sites_) == 1 else "%s'%d" % (lab_, n_ + 1)
         labs = set()
         for r in rs:
-            if r != 'E' and self._never_aliases(e, r):
+            if r != 'E' and e is not None and self._never_aliases(e, r):
                 continue
             labs.add('E' if r == 'E' else self._vlabels.get(tuple(r), self._store_label(*r)))
         if labs <= {'E'}:
@@ -478,6 +481,24 @@ class Canon:
                 return self.c(xs.args[0]), const_int(r.args[0])
         return self.c(xs), 0
 
+    def borrow_version(self, call):
+        """memory version of the collection a slice iterator borrows, taken where `x.iter()` is called: the shared borrow
+        lives as long as the iterator, so every element it yields is read in that version"""
+        fn, P = self.fn, self.P
+        if not call.site or call.site[1] != -1:
+            return ''
+        b = call.site[0]
+        t = fn.blocks[b]['term']
+        if t.get('k') != 'call' or not t['args'] or t['args'][0]['k'] not in ('copy', 'move'):
+            return ''
+        a = t['args'][0]['pl']
+        n = len(fn.blocks[b]['stmts'])
+        try:
+            root = P.ptr_target(a['l'], b, n) if not a['p'] and (fn.local_ty(a['l']) or '').startswith(('&', '*')) else P.root_of(a['l'], a['p'], b, n)
+            return self.version_of(P.reach_root(root, None, b, n))
+        except (KeyError, IndexError, TypeError):
+            return ''
+
     def iter_element(self, it):
         """the element an iterator yields, written as an indexed read of the underlying collection — the same text a
         hand-written index loop produces: for x in a.iter() ~ a[i], i in 0..len;  .rev() ~ a[len-1-i];
@@ -508,6 +529,7 @@ class Canon:
                 coll = src.args[0]
                 n = self.coll_len(coll)
                 base, off = self.coll_base(coll)
+                ver = self.borrow_version(src)
                 I_ = 'each(Range::Range{0, %s})' % n
                 if rev and n.isdigit() and not off and not zipped:
                     # a[len-1-i], i in 0..len, is a[j] with j running down through the range
@@ -516,7 +538,7 @@ class Canon:
                     idx = 'SubWithOverflow(%s, %s).0' % (str(int(n) - 1 + off) if n.isdigit() else 'SubWithOverflow(%s, 1).0' % n, I_)
                 else:
                     idx = I_ if not off else 'AddWithOverflow(%s, %d).0' % (I_, off)
-                return '%s[%s]' % (base, idx), I_
+                return '%s[%s]%s' % (base, idx, ver), I_
             if src.k == 'call' and last(src.name) in ('chunks_exact', 'chunks_exact_mut') and len(src.args) == 2 and const_int(src.args[1]):
                 k_ = const_int(src.args[1])
                 coll = src.args[0]
@@ -940,13 +962,30 @@ class Canon:
                     return '%s[%s]%s' % (self.c(base.args[0]), idx_, self.version(e))
                 if r_.k == 'aggr' and r_.name == 'RangeTo::RangeTo':
                     return '%s[%s]%s' % (self.c(base.args[0]), self.c(e.args[1]), self.version(e))
-            return '%s[%s]%s' % (self.c(e.args[0]), self.c(e.args[1]) if len(e.args) > 1 else e.name, self.version(e))
+            bt_, own_ = self.c(e.args[0]), self.version(e)
+            wv_ = ''
+            if bt_.endswith('}') and '#{' in bt_:
+                # the base carries a whole-object version (it was copied or borrowed as a whole): an element read with its own
+                # version supersedes it; one without (read from the copy) inherits it
+                d_ = 0
+                for k_ in range(len(bt_) - 1, -1, -1):
+                    if bt_[k_] == '}':
+                        d_ += 1
+                    elif bt_[k_] == '{':
+                        d_ -= 1
+                        if d_ == 0:
+                            if k_ >= 1 and bt_[k_ - 1] == '#':
+                                bt_, wv_ = bt_[:k_ - 1], bt_[k_ - 1:]
+                            break
+            return '%s[%s]%s' % (bt_, self.c(e.args[1]) if len(e.args) > 1 else e.name, own_ or wv_)
         if k == 'phi':
             return 'phi(%s)' % ' | '.join(sorted(self.c(a) for a in e.args))
         if k == 'local':
             if e.name in self.bare:
                 return e.name
-            return 'var:%s%s' % (e.name, ('=' + self.c(e.args[0])) if e.args else '')
+            # a local of an inlined helper that had to be prefixed (`expand.w`) is shown by its own name
+            nm_ = e.name.rsplit('.', 1)[-1] if '.' in (e.name or '') and not e.name.startswith('_') else e.name
+            return 'var:%s%s%s' % (nm_, ('=' + self.c(e.args[0])) if e.args else '', self.version(e))
         if k == 'discr':
             return 'discr(%s)' % self.c(e.args[0])
         return '?'
